@@ -1,12 +1,14 @@
 //! Property registry.
 use crate::runner::PropertyDef;
 
+pub mod c01;
 pub mod c08;
 pub mod c09;
 pub mod c10;
 
 pub fn get(id: &str) -> Option<PropertyDef> {
     match id {
+        "C01" => Some(c01::def()),
         "C08" => Some(c08::def()),
         "C09" => Some(c09::def()),
         "C10" => Some(c10::def()),
